@@ -56,7 +56,7 @@ func cmdStreamBulk(args []string) int {
 				names[i] = fmt.Sprintf("/k%05d", i+1)
 			}
 			var border []byte
-			opts := kb.Options{Engine: eng, KeyNames: names, Gated: false, Record: false, Base: 100}
+			opts := kb.Options{Engine: eng, KeyNames: names, Gated: false, Record: false, Base: 100, Etcd: withFault}
 			if en != "tikv-regions" {
 				opts.Partitions = func(start, end []byte) []storage.Partition {
 					if border == nil || string(border) <= string(start) || string(border) >= string(end) {
@@ -141,6 +141,78 @@ func cmdStreamBulk(args []string) int {
 				"streamed": len(kvs), "missing": m, "dups": d, "foreign": f, "terms": terms, "err": serr, "pieces": 1}
 			bs, _ := json.Marshal(ev)
 			w.Write(append(bs, '\n'))
+			if withFault {
+				// the other receivers of the scanner under the same fault: an unlimited list, a limited list and a count are
+				// started over after the error (their partial result is dropped), so the answer is the complete one
+				arm := func() {
+					fired := false
+					var fmu sync.Mutex
+					env.Store.IterFault = func(proc string, iter, nth int) error {
+						fmu.Lock()
+						defer fmu.Unlock()
+						if nth == 900 && !fired {
+							fired = true
+							return errors.New("injected transient iterator error")
+						}
+						return nil
+					}
+				}
+				pfx := []byte(env.Prefix + "/")
+				for _, how := range []string{"list", "limited", "count"} {
+					arm()
+					var got []interface{}
+					want := n
+					e := ""
+					switch how {
+					case "list", "limited":
+						lim := int64(0)
+						if how == "limited" {
+							lim, want = 1200, 1200
+						}
+						lr, lerr := env.B.List(ctx, &proto.RangeRequest{Key: pfx, End: backend.PrefixEnd(pfx), Limit: lim})
+						if lerr != nil {
+							e = "err"
+						} else {
+							got = kvList(env, lr.Kvs)
+						}
+					case "count":
+						cr, cerr := env.B.Count(ctx, &proto.CountRequest{Key: pfx, End: backend.PrefixEnd(pfx)})
+						if cerr != nil {
+							e = "err"
+						} else {
+							// a count has no keys: a surplus shows as duplicates, a deficit as missing
+							for k := 1; k <= int(cr.Count) && k <= n; k++ {
+								got = append(got, []interface{}{k, 0, ""})
+							}
+							for k := n; k < int(cr.Count); k++ {
+								got = append(got, []interface{}{n, 0, ""})
+							}
+						}
+					}
+					env.Store.IterFault = nil
+					seen := map[int]int{}
+					for _, kv := range got {
+						seen[kv.([]interface{})[0].(int)]++
+					}
+					m, d, f := 0, 0, 0
+					for k := 1; k <= want; k++ {
+						if seen[k] == 0 {
+							m++
+						} else if seen[k] > 1 {
+							d += seen[k] - 1
+						}
+					}
+					for k := range seen {
+						if k < 1 || k > want {
+							f++
+						}
+					}
+					ev := gate.Event{"e": "BulkStream", "engine": en, "n": want, "first_partition": first, "how": how, "iter_fault": true, "setup_ok": okAll,
+						"streamed": len(got), "missing": m, "dups": d, "foreign": f, "terms": 1, "err": e, "pieces": 1}
+					bs, _ := json.Marshal(ev)
+					w.Write(append(bs, '\n'))
+				}
+			}
 			// every advertised partition
 			pr, perr := env.B.GetPartitions(ctx, &proto.ListPartitionRequest{Key: []byte(env.Prefix + "/"), End: backend.PrefixEnd([]byte(env.Prefix + "/"))})
 			if perr == nil {
